@@ -22,6 +22,8 @@ def materialise(world, dirpath, samples, build="hg19", profile_yaml=True, extra=
     ref = W.reference_sample(world)
     if extra and extra.get("ref_softclip"):
         ref["softclip"] = extra["ref_softclip"]
+    if extra and extra.get("ref_random_ins"):
+        ref["random_ins"] = extra["ref_random_ins"]
     for g in world["genes"]:
         if g.get("no_reads"):
             ref["genes"].pop(g["name"], None)
